@@ -861,6 +861,7 @@ func c17Stress(t *testing.T, r *zv.Run) {
 		close(stop)
 		cancel()
 		if hung {
+			c17PoolWedged = true
 			r.Count("stress", "hung")
 			r.Violation("deadlock-lock-cycle-pool.m<->timedQueue.mu",
 				fmt.Sprintf("concurrent stress (4 workers + cool-down timer) made no progress for %v: calls on the pool hang", c17Watchdog/2),
@@ -905,8 +906,12 @@ func c17Stress(t *testing.T, r *zv.Run) {
 	}
 }
 
-// c17MutexWaiters reads the waiter count out of a sync.Mutex (state >> mutexWaiterShift). Only used to shorten a
-// bounded wait in the deadlock schedule; a wrong answer costs time, not correctness.
+// c17PoolWedged: the concurrent stress found calls on the pool hanging
+var c17PoolWedged bool
+
+// c17MutexWaiters reads the waiter count out of a sync.Mutex (state >> mutexWaiterShift). Used to shorten a
+// bounded wait in the deadlock schedule and to see a parked call queue up behind a mutex the scheduler holds; a wrong
+// answer costs time, not correctness.
 func c17MutexWaiters(m *sync.Mutex) int32 {
 	return atomic.LoadInt32((*int32)(unsafe.Pointer(m))) >> 3
 }
@@ -935,7 +940,6 @@ func TestVerifC17(t *testing.T) {
 	}
 	c17Pool(t, r)
 	c17Manager(t, r)
-	c17Fine(t, r)
 	deadlocked := false
 	if pn := zv.Recover(func() { deadlocked = c17Deadlock(t, r) }); pn != "" {
 		r.Violation("pool-panic:deadlock-schedule", "a pool method panicked in the two-thread schedule: "+pn, map[string]any{"kind": "deadlock-schedule"})
@@ -947,4 +951,10 @@ func TestVerifC17(t *testing.T) {
 	if pn := zv.Recover(func() { c17Stress(t, r) }); pn != "" {
 		r.Violation("pool-panic:stress", "a pool method panicked after concurrent use: "+pn, map[string]any{"kind": "stress"})
 	}
+	if c17PoolWedged {
+		// the lock-granularity schedules park real calls on the pool's mutexes; on a pool that deadlocks they would hang too
+		r.Count("fine-seq", "skipped-pool-deadlocks")
+		return
+	}
+	c17Fine(t, r)
 }
